@@ -332,7 +332,7 @@ func (a *Analysis) OrderCheck() []Finding {
 	// R3: closing faults only => first deliveries of QoS>=1 messages in submission order
 	closingOnly := true
 	for _, e := range a.Ev {
-		if e.Kind == memnet.KFault && (e.S == DropResp || e.S == NoConnack) {
+		if e.Kind == memnet.KFault && (e.S == DropResp || e.S == DropReq || e.S == NoConnack) {
 			closingOnly = false
 		}
 	}
